@@ -95,17 +95,19 @@ Proof.
     + intro X. left. apply (err_live_ext t); [apply slot_insert_other; exact E|exact X].
 Qed.
 
-(* a status-only write by another writer: the same object is re-inserted at a new revision *)
-Lemma restamp_istate : forall t c res l o r, slot_of t (o_pk o) = Some (Live o r) -> istate t c res l -> istate (t_insert t o) c res l.
+(* a status-only write by another writer: the object is re-inserted at a new revision with the other
+   writer's data changed *)
+Lemma restamp_istate : forall t c res l o r, slot_of t (o_pk o) = Some (Live o r) -> istate t c res l -> istate (t_insert t (bump_aux o)) c res l.
 Proof.
   intros t c res l o r Hs [A [B C]]. split; [apply keyed_insert; exact A|]. split; [cbn; lia|].
-  intros it Hi. specialize (C it Hi). destruct (N.eq_dec (ri_pk it) (o_pk o)) as [E|E].
-  - apply (item_ok_step t (t_insert t o) c c res res); [| |tauto|exact C]; rewrite E.
-    + intros [sl [X1 [X2 X3]]]. rewrite Hs in X1. injection X1 as X1. subst sl. cbn in X2, X3.
-      exists (Live o (t_rev t + 1)). rewrite slot_insert_same. split; [reflexivity|]. split; [cbn; lia|exact X3].
-    + intros [o' [r' [X1 X2]]]. rewrite Hs in X1. injection X1 as X1 X3. subst o' r'. left.
-      exists o, (t_rev t + 1). rewrite slot_insert_same. split; [reflexivity|exact X2].
-  - apply (item_ok_step t (t_insert t o) c c res res); [| |tauto|exact C].
+  set (o' := bump_aux o). assert (Hpk' : o_pk o' = o_pk o) by reflexivity.
+  intros it Hi. specialize (C it Hi). destruct (N.eq_dec (ri_pk it) (o_pk o')) as [E|E].
+  - apply (item_ok_step t (t_insert t o') c c res res); [| |tauto|exact C]; rewrite E.
+    + intros [sl [X1 [X2 X3]]]. rewrite Hpk', Hs in X1. injection X1 as X1. subst sl. cbn in X2, X3.
+      exists (Live o' (t_rev t + 1)). rewrite slot_insert_same. split; [reflexivity|]. split; [cbn; lia|exact X3].
+    + intros [o2 [r' [X1 X2]]]. rewrite Hpk', Hs in X1. injection X1 as X1 X3. subst o2 r'. left.
+      exists o', (t_rev t + 1). rewrite slot_insert_same. split; [reflexivity|exact X2].
+  - apply (item_ok_step t (t_insert t o') c c res res); [| |tauto|exact C].
     + apply work_ahead_ext. apply slot_insert_other. exact E.
     + intro X. left. apply (err_live_ext t); [apply slot_insert_other; exact E|exact X].
 Qed.
@@ -263,6 +265,7 @@ Lemma commit_one_items : forall c now t q r rest t1 q1, keyed t -> uniq q -> c <
 Proof.
   intros c now t q r rest t1 q1 K U Hc Hnin Hpast I O H.
   destruct (commit_one_spec _ _ _ _ _ _ _ _ K H) as [Ho [Hcs Hq]].
+  pose proof (queued_pk t r K) as Qk.
   set (pk := o_pk (r_obj r)) in *.
   assert (NotRest : forall r', In r' rest -> o_pk (r_obj r') <> pk).
   { intros r' Hin Heq. apply Hnin. rewrite <- Heq. unfold res_pks. apply (in_map (fun r => o_pk (r_obj r))). exact Hin. }
@@ -282,7 +285,7 @@ Proof.
     { rewrite Hq. unfold wrote. rewrite B. replace (t_rev t =? t_rev t + 1) with false by (symmetry; apply N.eqb_neq; lia).
       rewrite andb_false_r. reflexivity. }
     clear Hq. subst q1. split.
-    + intros it Hi. destruct (N.eq_dec (ri_pk it) pk) as [E|E]; [|apply Other; assumption].
+    + intros it Hi. destruct (N.eq_dec (ri_pk it) pk) as [E|E]; [|apply Other; first [assumption|rewrite <- Qk; assumption]].
       specialize (I it Hi).
       assert (SE : slot_of t1 (ri_pk it) = slot_of t (ri_pk it)) by (rewrite E; exact A).
       destruct I as [X|[X|[[X1 [X2 [X3 X4]]]|[X1 [X2 [r' [[R1|R1] [R2 R3]]]]]]]].
@@ -301,11 +304,11 @@ Proof.
       * intros it Hi. apply Other; [exact Hi|]. apply (O r (or_introl eq_refl) Eok it Hi).
       * intros r' Hr' Hok it Hi. apply (O r' (or_intror Hr') Hok it Hi).
     + subst q1. split.
-      * intros it Hi. apply (in_add_items _ _ _ _ _ _ _ U) in Hi. destruct Hi as [[I1 [I2 [I3 [I4 I5]]]]|[I1 I2]]; [|apply Other; assumption].
+      * intros it Hi. apply (in_add_items _ _ _ _ _ _ _ U) in Hi. destruct Hi as [[I1 [I2 [I3 [I4 I5]]]]|[I1 I2]]; [|apply Other; first [assumption|rewrite <- Qk; assumption]].
         right. right. left. split; [exact I5|]. split; [exact I4|]. split; [rewrite I2, I3; lia|].
-        unfold ri_pk. rewrite I1. fold pk. exists (with_status (r_obj r) Error (t_nextid t)), (t_rev t + 1). split; [exact B|reflexivity].
+        unfold ri_pk. rewrite I1, Qk. exists (with_status (r_obj r) Error (t_nextid t)), (t_rev t + 1). split; [exact B|reflexivity].
       * intros r' Hr' Hok it Hi. apply (in_add_items _ _ _ _ _ _ _ U) in Hi. destruct Hi as [[I1 _]|[I1 I2]].
-        -- unfold ri_pk. rewrite I1. fold pk. intro X. apply (NotRest r' Hr'). symmetry. exact X.
+        -- unfold ri_pk. rewrite I1, Qk. intro X. apply (NotRest r' Hr'). symmetry. exact X.
         -- apply (O r' (or_intror Hr') Hok it I1).
   - (* written through the fallback *)
     assert (W : wrote t t1 = true) by (unfold wrote; rewrite C; apply N.eqb_refl).
@@ -314,11 +317,11 @@ Proof.
       * intros it Hi. apply Other; [exact Hi|]. apply (O r (or_introl eq_refl) Eok it Hi).
       * intros r' Hr' Hok it Hi. apply (O r' (or_intror Hr') Hok it Hi).
     + subst q1. split.
-      * intros it Hi. apply (in_add_items _ _ _ _ _ _ _ U) in Hi. destruct Hi as [[I1 [I2 [I3 [I4 I5]]]]|[I1 I2]]; [|apply Other; assumption].
+      * intros it Hi. apply (in_add_items _ _ _ _ _ _ _ U) in Hi. destruct Hi as [[I1 [I2 [I3 [I4 I5]]]]|[I1 I2]]; [|apply Other; first [assumption|rewrite <- Qk; assumption]].
         right. right. left. split; [exact I5|]. split; [exact I4|]. split; [rewrite I2, I3; lia|].
-        unfold ri_pk. rewrite I1. fold pk. exists (with_status cur Error (t_nextid t)), (t_rev t + 1). split; [exact B|reflexivity].
+        unfold ri_pk. rewrite I1, Qk. exists (with_status cur Error (t_nextid t)), (t_rev t + 1). split; [exact B|reflexivity].
       * intros r' Hr' Hok it Hi. apply (in_add_items _ _ _ _ _ _ _ U) in Hi. destruct Hi as [[I1 _]|[I1 I2]].
-        -- unfold ri_pk. rewrite I1. fold pk. intro X. apply (NotRest r' Hr'). symmetry. exact X.
+        -- unfold ri_pk. rewrite I1, Qk. intro X. apply (NotRest r' Hr'). symmetry. exact X.
         -- apply (O r' (or_intror Hr') Hok it I1).
 Qed.
 
